@@ -119,7 +119,7 @@ func c20cRest() (direct int, drainerAtRest bool, fp string) {
 			drainerSeen = true
 		}
 		atLock := strings.Contains(hdr, "[sync.Mutex.Lock") || strings.Contains(hdr, "[sync.RWMutex.Lock") || strings.Contains(hdr, "[sync.RWMutex.RLock") ||
-			(strings.Contains(hdr, "[chan send") && strings.Contains(first, "storeBlock"))
+			strings.Contains(hdr, "[chan send") // the block event
 		switch {
 		case strings.Contains(body, "main.c20cWorker") && atLock:
 			if isDrainer {
@@ -214,6 +214,8 @@ func c20RunConcCase(co *caseOut, raw json.RawMessage) error {
 		}
 	}
 	var evIdx []uint32
+	release := func() {} // whatever the harness holds at the moment; also on the error returns, before anything is closed
+	defer func() { release() }()
 	for _, st := range in.Ops {
 		h := bc.BlockHeight()
 		if h+2 > src.height {
@@ -221,15 +223,17 @@ func c20RunConcCase(co *caseOut, raw json.RawMessage) error {
 		}
 		out := c20cStepOut{Height: h}
 		before := len(appliedNow())
-		var resume chan struct{}
 		switch st.Hold {
 		case "add":
 			bc.VerifAddLock()
+			release = bc.VerifAddUnlock
 		case "state":
 			bc.VerifRLock()
+			release = bc.VerifRUnlock
 		case "event":
-			resume = make(chan struct{})
+			resume := make(chan struct{})
 			pause <- resume
+			release = func() { close(resume) }
 		}
 		res := make(chan c20cRes, len(st.Calls))
 		started, returned := 0, 0
@@ -276,19 +280,15 @@ func c20RunConcCase(co *caseOut, raw json.RawMessage) error {
 			}
 			out.Parked = max(out.Parked, n)
 		}
-		switch st.Hold {
-		case "add":
-			bc.VerifAddUnlock()
-		case "state":
-			bc.VerifRUnlock()
-		case "event":
+		if st.Hold == "event" {
 			// the event is part of the critical section: with the dispatcher halted, one block's event is with the
 			// dispatcher, the next block's sender waits for the dispatcher INSIDE the section, nobody else gets in
 			if k := len(appliedNow()) - before; k > 2 {
 				violate("concurrent producers: further blocks are applied while an earlier block's event is still being sent (the event is sent outside the block-addition critical section): %d applied, dispatcher halted after the first", k)
 			}
-			close(resume)
 		}
+		release()
+		release = func() {}
 		for started > returned {
 			select {
 			case r := <-res:
@@ -424,6 +424,8 @@ const c20ConcRule = "conc: the real ledger fed with the source chain's blocks by
 	"twice/thrice, next and next-but-one reversed, direct call while the queue drains the same block, block and its header in both orders, stale tip " +
 	"beside the next block, the next two or three blocks from different callers; non-trivial when at least two callers were parked at a lock at the same time"
 
+var c20cDeck []c20cStep
+
 func c20GenConc(r *rng, src c20SrcParams) c20cInput {
 	in := c20cInput{Src: src}
 	shapes := [][]c20cCall{
@@ -441,9 +443,21 @@ func c20GenConc(r *rng, src c20SrcParams) c20cInput {
 		{{"blk", 0}, {"blk", 1}, {"blk", 2}},
 		{{"blk", 0}, {"queue", 1}, {"blk", 2}},
 	}
+	// every (lock held, shape) pair comes up: a deck of all pairs, shuffled, dealt over the cases
 	for i := 0; i < src.Height-2; i++ {
-		st := c20cStep{Hold: pick(r, []string{"add", "add", "state", "state", "event", "none"}), Calls: append([]c20cCall{}, pick(r, shapes)...)}
-		in.Ops = append(in.Ops, st)
+		if len(c20cDeck) == 0 {
+			for _, h := range []string{"add", "state", "event", "none"} {
+				for _, sh := range shapes {
+					c20cDeck = append(c20cDeck, c20cStep{Hold: h, Calls: append([]c20cCall{}, sh...)})
+				}
+			}
+			for j := len(c20cDeck) - 1; j > 0; j-- {
+				k := r.intn(j + 1)
+				c20cDeck[j], c20cDeck[k] = c20cDeck[k], c20cDeck[j]
+			}
+		}
+		in.Ops = append(in.Ops, c20cDeck[len(c20cDeck)-1])
+		c20cDeck = c20cDeck[:len(c20cDeck)-1]
 	}
 	return in
 }
